@@ -53,9 +53,6 @@ class Monitor(object):
             ctx.count('judged.respelled-pair-answered')
             e_kind = e.strip().upper()
         elif not known:
-            if g not in ('M', 'F') and (g, e) not in UNKNOWN:
-                ctx.count('unjudged.gender-spelling')
-                return
             if out.ok and out.value is None:
                 ctx.nt(('none', g, e, t))
                 ctx.count('judged.unknown-pair')
@@ -164,6 +161,17 @@ def run_shard(ctx, spec):
         ctx.count('eval.hostile-call')
         attach.call(mon.perf, g2, e2, rnd.randrange(1, 1300))
     if spec['i'] == 0:
+        # unknown pairs: every event (and the veterans' hurdles aliases) under a gender label that is neither M nor F, through
+        # the inverse and - they must agree on what is unknown - the forward function
+        evs = sorted(set(e for _, e in mon.live)) + ['80H', '100H', '110H']
+        for g in ('X', '?', '', 'W', 'B', 'MF', 'Male', 'female', 'U', '0'):
+            for e in evs:
+                attach.call(mon.perf, g, e, 700)
+                o = attach.call(mon.raw_score, g, e, 14.0)
+                ctx.count('eval.forward-score-of-unknown-pair')
+                if not o.ok or o.value is not None:
+                    ctx.violation('unknown-pair:forward-score:%s' % ('raise:' + type(o.value).__name__ if not o.ok else 'answered'),
+                                  {'g': g, 'e': e, 't': 'score of 14.0'}, None, repr(o))
         for g, e in UNKNOWN:
             for t in (-5, 0, 1, 500, 1500):
                 attach.call(mon.perf, g, e, t)
